@@ -36,7 +36,8 @@ for i in range(1, 21):
     partial = [t for t in thms if "partial" in t]
     hist = [t for t in thms if "refuted" in t or "historical" in t.lower() or "_v0_" in t or "witness" in t]
     openl = [d for d in re.findall(r"^Definition\s+(\w+_full)\b", src, re.M)
-             if not re.search(r":\s*%s\s*\." % d, src)]   # a _full Definition that some Theorem proves is not open
+             if not re.search(r":\s*%s\s*\." % d, src)      # a _full Definition that some Theorem proves by name
+             and d[:-5] not in thms]                          # ... or whose statement is pinned verbatim as Theorem <name>
     ev = os.path.join(ROOT, "evidence", pid + ".json")
     cs = ""
     if os.path.exists(ev):
